@@ -118,14 +118,14 @@ def subst(script):
 
 
 # ---- plans -----------------------------------------------------------------------------------
-def gen_multiframe(rng, big=False):
+def gen_multiframe(rng, big=False, overshoot=0, max_bits=16):
     """2..5 frames: regular / reference-only / skip-progressive, crops that overlap the canvas,
     all blend modes, save slots, durations (animation) — the frame structure C09/C11 care about.
     Blend sources never name a slot that holds a reference-only frame and crops always intersect
     the canvas (inputs outside that are rejected or mishandled by the blend code, which is C05's)."""
     w = rng.choice([1, 2, 3, 5, 8, 9, 16, 17, rng.randint(1, 24)]) if not big else rng.choice([129, 140, 200])
     h = rng.choice([1, 2, 3, 4, 7, 8, 13, rng.randint(1, 24)]) if not big else rng.choice([3, 9, 130])
-    bits = rng.choice([8, 8, 8, 10, 12, 16])
+    bits = rng.choice([b for b in [8, 8, 8, 10, 12, 16] if b <= max_bits])
     gray = rng.random() < 0.3
     alpha = rng.random() < 0.5
     ecs = [{"ty": 0, "dim_shift": 0, "bits": bits, "alpha_assoc": rng.random() < 0.3}] if alpha else []
@@ -133,7 +133,7 @@ def gen_multiframe(rng, big=False):
     img = {"w": w, "h": h, "bits": bits, "gray": gray, "buf16": bits <= 12 and rng.random() < 0.7,
            "ecs": ecs, "orient": rng.choice([1, 1, 1, 2, 5, 8]), "anim": anim}
     nch = (1 if gray else 3) + len(ecs)
-    lo, hi = 0, (1 << bits) - 1
+    lo, hi = -overshoot, (1 << bits) - 1 + overshoot     # samples outside the nominal range are legal
     nfr = rng.randint(2, 5)
     frames, saved, refonly = [], set(), set()
     for i in range(nfr):
